@@ -656,3 +656,298 @@ Qed.
 Example separated_example :
   separated [num1 1000000; num1 1001000; num1 1001000; num1 999000] = true.
 Proof. reflexivity. Qed.
+
+(* ------------------------------------------------------------------ *)
+(* 64-bit integer sort keys: SS_DT_SIGNED_NUM / SS_DT_UNSIGNED_NUM over the whole      *)
+(* int64 / uint64 range, compared through float64 (GetFloatValueIfPossible)            *)
+(* ------------------------------------------------------------------ *)
+Section INTKEYS.
+Local Open Scope Z_scope.
+
+Lemma rne_cases n sh : 0 <= sh -> 0 <= n ->
+  let p := 2 ^ sh in
+  0 < p /\ n = (n / p) * p + n mod p /\ 0 <= n mod p < p /\
+  (rne n sh = (n / p) * p \/ (rne n sh = (n / p + 1) * p /\ 0 < n mod p)).
+Proof.
+  intros Hs Hn p. assert (Hp : 0 < p) by (apply Z.pow_pos_nonneg; lia).
+  pose proof (Z.div_mod n p ltac:(lia)) as E. pose proof (Z.mod_pos_bound n p Hp) as B.
+  repeat split; try lia.
+  unfold rne. fold p.
+  destruct (2 * (n mod p) <? p) eqn:E1; [left; reflexivity|].
+  apply Z.ltb_ge in E1.
+  destruct (p <? 2 * (n mod p)) eqn:E2; [right; split; [reflexivity|lia]|].
+  destruct (Z.even (n / p)); [left; reflexivity|right; split; [reflexivity|lia]].
+Qed.
+
+Lemma rne_le_mult n sh k : 0 <= sh -> 0 <= n -> n <= k * 2 ^ sh -> rne n sh <= k * 2 ^ sh.
+Proof.
+  intros Hs Hn H. destruct (rne_cases n sh Hs Hn) as (Hp & E & B & [R|[R Hr]]); rewrite R.
+  - nia.
+  - assert (n / 2 ^ sh < k) by nia. nia.
+Qed.
+
+Lemma rne_ge_mult n sh k : 0 <= sh -> 0 <= n -> k * 2 ^ sh <= n -> k * 2 ^ sh <= rne n sh.
+Proof.
+  intros Hs Hn H. destruct (rne_cases n sh Hs Hn) as (Hp & E & B & [R|[R Hr]]); rewrite R.
+  - assert (k <= n / 2 ^ sh) by nia. nia.
+  - assert (k <= n / 2 ^ sh) by nia. nia.
+Qed.
+
+Lemma rne_nonneg n sh : 0 <= sh -> 0 <= n -> 0 <= rne n sh.
+Proof. intros Hs Hn. apply (rne_ge_mult n sh 0 Hs Hn). lia. Qed.
+
+Lemma rne_mono_same a b sh : 0 <= sh -> 0 <= a <= b -> rne a sh <= rne b sh.
+Proof.
+  intros Hs [Ha Hab].
+  assert (Hb : 0 <= b) by lia.
+  set (p := 2 ^ sh). assert (Hp : 0 < p) by (apply Z.pow_pos_nonneg; lia).
+  assert (Hq : a / p <= b / p) by (apply Z.div_le_mono; lia).
+  destruct (Z.eq_dec (a / p) (b / p)) as [Eq|Ne].
+  - pose proof (Z.div_mod a p ltac:(lia)) as Ea. pose proof (Z.div_mod b p ltac:(lia)) as Eb.
+    assert (Hr : a mod p <= b mod p) by nia.
+    pose proof (Z.mod_pos_bound a p Hp). pose proof (Z.mod_pos_bound b p Hp).
+    unfold rne. fold p. rewrite <- Eq.
+    destruct (2 * (a mod p) <? p) eqn:A1, (2 * (b mod p) <? p) eqn:B1; try lia;
+    destruct (p <? 2 * (a mod p)) eqn:A2, (p <? 2 * (b mod p)) eqn:B2; try lia;
+    destruct (Z.even (a / p)); lia.
+  - destruct (rne_cases a sh Hs Ha) as (_ & Ea & Ba & _).
+    fold p in Ea, Ba.
+    transitivity ((a / p + 1) * p).
+    + apply rne_le_mult; try assumption. fold p. nia.
+    + transitivity ((b / p) * p); [nia|].
+      apply rne_ge_mult; try assumption. fold p.
+      pose proof (Z.div_mod b p ltac:(lia)). pose proof (Z.mod_pos_bound b p Hp). nia.
+Qed.
+
+Lemma ulp_shift_nonneg n : 0 <= ulp_shift n.
+Proof. unfold ulp_shift. lia. Qed.
+
+Lemma f64_nonneg_mono a b : 0 <= a <= b -> rne a (ulp_shift a) <= rne b (ulp_shift b).
+Proof.
+  intros [Ha Hab].
+  destruct (Z.eq_dec a 0) as [->|Na].
+  { change (rne 0 (ulp_shift 0)) with 0. apply rne_nonneg; [apply ulp_shift_nonneg|lia]. }
+  assert (Hl : Z.log2 a <= Z.log2 b) by (apply Z.log2_le_mono; lia).
+  destruct (Z.eq_dec (ulp_shift a) (ulp_shift b)) as [Es|Ns].
+  - rewrite Es. apply rne_mono_same; [apply ulp_shift_nonneg|lia].
+  - assert (Hs : ulp_shift a < ulp_shift b) by (unfold ulp_shift in *; lia).
+    assert (Hsb : ulp_shift b = Z.log2 b - 52) by (unfold ulp_shift in *; lia).
+    assert (Hll : Z.log2 a < Z.log2 b) by (unfold ulp_shift in *; lia).
+    pose proof (ulp_shift_nonneg a) as Hsa.
+    destruct (Z.log2_spec a ltac:(lia)) as [_ A2]. destruct (Z.log2_spec b ltac:(lia)) as [B1 _].
+    assert (Hpow : 2 ^ Z.succ (Z.log2 a) <= 2 ^ Z.log2 b) by (apply Z.pow_le_mono_r; lia).
+    transitivity (2 ^ Z.log2 b).
+    + replace (2 ^ Z.log2 b) with (2 ^ (Z.log2 b - ulp_shift a) * 2 ^ ulp_shift a)
+        by (rewrite <- Z.pow_add_r by lia; f_equal; lia).
+      apply rne_le_mult; try lia.
+      rewrite <- Z.pow_add_r by lia. replace (Z.log2 b - ulp_shift a + ulp_shift a) with (Z.log2 b) by lia. lia.
+    + replace (2 ^ Z.log2 b) with (2 ^ 52 * 2 ^ ulp_shift b)
+        by (rewrite <- Z.pow_add_r by lia; f_equal; lia).
+      apply rne_ge_mult; try lia.
+      rewrite <- Z.pow_add_r by lia. replace (52 + ulp_shift b) with (Z.log2 b) by lia. lia.
+Qed.
+
+(* float64(int64) / float64(uint64) is monotone *)
+Theorem f64_of_int_mono a b : a <= b -> f64_of_int a <= f64_of_int b.
+Proof.
+  intros H. unfold f64_of_int.
+  destruct (Z.ltb_spec a 0), (Z.ltb_spec b 0); try lia.
+  - pose proof (f64_nonneg_mono (- b) (- a) ltac:(lia)). lia.
+  - pose proof (rne_nonneg (- a) (ulp_shift (- a)) (ulp_shift_nonneg _) ltac:(lia)).
+    pose proof (rne_nonneg b (ulp_shift b) (ulp_shift_nonneg _) ltac:(lia)). lia.
+  - apply f64_nonneg_mono. lia.
+Qed.
+
+Lemma f64_nonneg_exact n : 0 <= n <= 2 ^ 53 -> rne n (ulp_shift n) = n.
+Proof.
+  intros [H0 H1]. destruct (Z.eq_dec n (2 ^ 53)) as [->|Ne]; [reflexivity|].
+  assert (Hs : ulp_shift n = 0).
+  { unfold ulp_shift. destruct (Z.eq_dec n 0) as [->|N0]; [reflexivity|].
+    assert (Z.log2 n < 53) by (apply Z.log2_lt_pow2; lia). lia. }
+  rewrite Hs. unfold rne. change (2 ^ 0) with 1. rewrite Z.mod_1_r, Z.div_1_r. simpl. lia.
+Qed.
+
+(* … and exact up to 2^53 in absolute value *)
+Theorem f64_of_int_exact n : Z.abs n <= 2 ^ 53 -> f64_of_int n = n.
+Proof.
+  intros H. unfold f64_of_int. destruct (Z.ltb_spec n 0).
+  - rewrite f64_nonneg_exact by lia. lia.
+  - apply f64_nonneg_exact. lia.
+Qed.
+
+Lemma int_of_bits_range b : (b < 2 ^ 64)%N ->
+  0 <= int_of_bits true b < 2 ^ 64 /\ - 2 ^ 63 <= int_of_bits false b < 2 ^ 63 /\
+  (int_of_bits true b - int_of_bits false b = 0 \/ int_of_bits true b - int_of_bits false b = 2 ^ 64).
+Proof.
+  intros H. unfold int_of_bits.
+  destruct (N.ltb_spec b 9223372036854775808); lia.
+Qed.
+
+(* compareValues on two integer-typed values (any mix of SS_DT_SIGNED_NUM and
+   SS_DT_UNSIGNED_NUM, any 64-bit patterns), op num / auto / "": LESS and GREATER are never
+   against the exact integer order, EQUAL means the float64 images coincide *)
+Theorem int_keys_compare ua a ra ub b rb asc op : op <> OpStr ->
+  let x := int_of_bits ua a in
+  let y := int_of_bits ub b in
+  match compare_values tolerance (int_value ua a ra) (int_value ub b rb) asc op with
+  | LESS => if asc then x < y else y < x
+  | GREATER => if asc then y < x else x < y
+  | EQUAL => f64_of_int x = f64_of_int y
+  end.
+Proof.
+  intros Hop x y. unfold int_value. fold x y.
+  pose proof (f64_of_int_mono x y) as M1. pose proof (f64_of_int_mono y x) as M2.
+  assert (E : compare_values tolerance (VNum (f64_of_int x * 1000000) ra) (VNum (f64_of_int y * 1000000) rb) asc op
+              = flip asc (compare_float tolerance (f64_of_int x * 1000000) (f64_of_int y * 1000000))).
+  { destruct op; try congruence; reflexivity. }
+  rewrite E. unfold compare_float, tolerance.
+  destruct (Z.ltb_spec (Z.abs (f64_of_int x * 1000000 - f64_of_int y * 1000000)) 100);
+    destruct (Z.eqb_spec (f64_of_int x * 1000000) (f64_of_int y * 1000000)); simpl;
+    try (destruct asc; simpl; lia).
+  destruct (Z.ltb_spec (f64_of_int x * 1000000) (f64_of_int y * 1000000)); destruct asc; simpl; lia.
+Qed.
+
+(* guard: both integers survive the conversion (e.g. |n| <= 2^53): EQUAL exactly for equal integers,
+   so the comparator is the exact integer order *)
+Theorem int_keys_compare_exact_guarded ua a ra ub b rb asc op : op <> OpStr ->
+  f64_exact (int_of_bits ua a) = true -> f64_exact (int_of_bits ub b) = true ->
+  (compare_values tolerance (int_value ua a ra) (int_value ub b rb) asc op = EQUAL
+   <-> int_of_bits ua a = int_of_bits ub b).
+Proof.
+  intros Hop Ha Hb. unfold f64_exact in *. apply Z.eqb_eq in Ha, Hb.
+  pose proof (int_keys_compare ua a ra ub b rb asc op Hop) as H. cbv zeta in H.
+  split.
+  - intros E. rewrite E in H. congruence.
+  - intros E. destruct (compare_values tolerance (int_value ua a ra) (int_value ub b rb) asc op);
+      [reflexivity|destruct asc; lia|destruct asc; lia].
+Qed.
+
+Lemma f64_exact_below_2p53 n : Z.abs n <= 2 ^ 53 -> f64_exact n = true.
+Proof. intros H. unfold f64_exact. rewrite f64_of_int_exact by assumption. apply Z.eqb_refl. Qed.
+
+(* FULL STATEMENT fails: 2^53 + 1 and 2^53 (and uint64 2^63 + 1 against int64 2^63 - 1) are EQUAL,
+   and the sort leaves 2^53 + 1 in front of 2^53 *)
+Theorem int_keys_float64_collapse_refuted :
+  (exists ua a ub b, int_of_bits ua a <> int_of_bits ub b /\
+     compare_values tolerance (int_value ua a []) (int_value ub b []) true OpNum = EQUAL) /\
+  compare_values tolerance (int_value true 9223372036854775809 []) (int_value false 9223372036854775807 []) true OpAuto = EQUAL /\
+  sort_by (less_real asc_num) [[int_value false 9007199254740993 []]; [int_value false 9007199254740992 []]]
+  = [[int_value false 9007199254740993 []]; [int_value false 9007199254740992 []]].
+Proof.
+  split; [|split; vm_compute; reflexivity].
+  exists false, 9007199254740993%N, false, 9007199254740992%N. split; [vm_compute; discriminate|vm_compute; reflexivity].
+Qed.
+
+(* integer keys are always "separated": their float64 images are equal or at least 1 apart, so the
+   1e-4 tolerance never matters for them *)
+Definition int_or_nonnum (v : value) : Prop :=
+  (exists u b r, v = int_value u b r) \/ num_of v = None.
+
+Lemma int_sep2 a b : int_or_nonnum a -> int_or_nonnum b -> sep2 a b = true.
+Proof.
+  unfold sep2. intros [(ua & ba & ra & ->)|Ha] [(ub & bb & rb & ->)|Hb];
+    try (rewrite Ha; reflexivity); try (rewrite Hb; destruct (num_of _); reflexivity).
+  simpl. unfold tolerance. lia.
+Qed.
+
+Lemma int_sep_keys : forall a b, Forall int_or_nonnum a -> Forall int_or_nonnum b -> sep_keys a b = true.
+Proof.
+  induction a as [|va ar IH]; intros [|vb br] Ha Hb; simpl; auto.
+  inversion Ha; inversion Hb; subst. rewrite int_sep2 by assumption. simpl. auto.
+Qed.
+
+Theorem int_records_separated U : Forall (Forall int_or_nonnum) U -> separated U = true.
+Proof.
+  intros H. unfold separated. rewrite Forall_forall in H.
+  apply forallb_forall. intros a Ha. apply forallb_forall. intros b Hb.
+  apply int_sep_keys; auto.
+Qed.
+
+(* so for records whose numeric sort keys are all integer-typed (whole int64 and uint64 range,
+   mixed dtypes, with strings and missing values) the real comparator is a strict weak order and
+   the streaming sort returns the first `limit` of the sorted whole — no guard on the values *)
+Theorem sort_topk_streaming_int_keys eles limit batches :
+  Forall (Forall (Forall int_or_nonnum)) batches ->
+  Forall (Forall (fun r => length r = length eles)) batches ->
+  process (less_real eles) limit batches =
+  firstn limit (sort_by (less_real eles) (concat batches)).
+Proof.
+  intros HI HL. apply sort_topk_streaming_real_guarded; [|assumption].
+  apply int_records_separated. apply Forall_concat. assumption.
+Qed.
+
+(* a record with ONE integer-typed sort key: (dtype, 64 bits of CVal, string form) *)
+Definition ikey := (bool * N * list N)%type.
+Definition irec (k : ikey) : list value := [int_value (fst (fst k)) (snd (fst k)) (snd k)].
+Definition ival (k : ikey) : Z := int_of_bits (fst (fst k)) (snd (fst k)).
+Definition int_less (asc : bool) (op : sop) (a b : ikey) : bool := less_real [(asc, op)] (irec a) (irec b).
+Definition int_ordered (asc : bool) (a b : ikey) : Prop := if asc then ival a <= ival b else ival b <= ival a.
+
+Lemma int_less_swo asc op : swo_on (int_less asc op) (fun _ => True).
+Proof.
+  assert (E : forall a b, int_less asc op a b = less_exact [(asc, op)] (irec a) (irec b)).
+  { intros a b. unfold int_less. apply less_real_exact. unfold irec. apply int_sep_keys;
+      (apply Forall_cons; [left; repeat eexists|apply Forall_nil]). }
+  destruct (less_exact_swo [(asc, op)]) as (Hi & Ht & Hn).
+  repeat split.
+  - intros a _. rewrite E. apply Hi. reflexivity.
+  - intros a b c _ _ _. rewrite !E. apply Ht; reflexivity.
+  - intros a b c _ _ _. rewrite !E. apply Hn; reflexivity.
+Qed.
+
+Lemma int_less_false_ordered asc op a b : op <> OpStr ->
+  f64_exact (ival a) = true -> f64_exact (ival b) = true ->
+  int_less asc op b a = false -> int_ordered asc a b.
+Proof.
+  intros Hop Ea Eb H. unfold int_less, less_real, irec in H. simpl in H.
+  destruct b as [[ub bb] rb], a as [[ua ba] ra]. unfold ival, int_ordered in *. simpl in *.
+  pose proof (int_keys_compare ub bb rb ua ba ra asc op Hop) as C. cbv zeta in C.
+  unfold f64_exact in *. apply Z.eqb_eq in Ea, Eb.
+  destruct (compare_values tolerance (int_value ub bb rb) (int_value ua ba ra) asc op);
+    try discriminate; destruct asc; unfold ival; simpl; lia.
+Qed.
+
+Lemma Forall_firstn' {A} (P : A -> Prop) k : forall l, Forall P l -> Forall P (firstn k l).
+Proof.
+  induction k as [|k IH]; intros [|x l] H; simpl; auto. inversion H; subst. constructor; auto.
+Qed.
+
+Lemma StronglySorted_weaken {A} (R R' : A -> A -> Prop) (P : A -> Prop) l :
+  (forall a b, P a -> P b -> R a b -> R' a b) -> Forall P l -> StronglySorted R l -> StronglySorted R' l.
+Proof.
+  intros W HP HS. induction HS as [|x l HS IH Hx]; [constructor|].
+  inversion HP; subst. constructor; [auto|].
+  rewrite Forall_forall in *. intros y Hy. auto.
+Qed.
+
+(* `sort [limit] [+|-] num(n)/auto(n)/n` over an integer column whose values survive the float64
+   conversion (|n| <= 2^53, or any m * 2^k with |m| < 2^53 — both dtypes, the whole 64-bit range):
+   for ANY batching the result is the first `limit` of the sorted whole and no pair of result rows
+   is out of exact integer order *)
+Theorem sort_int_key_exact_guarded asc op limit (batches : list (list ikey)) : op <> OpStr ->
+  Forall (Forall (fun k => f64_exact (ival k) = true)) batches ->
+  process (int_less asc op) limit batches = firstn limit (sort_by (int_less asc op) (concat batches)) /\
+  StronglySorted (int_ordered asc) (process (int_less asc op) limit batches).
+Proof.
+  intros Hop HE.
+  assert (HT : Forall (Forall (fun _ : ikey => True)) batches).
+  { apply Forall_forall. intros b _. apply Forall_forall. auto. }
+  pose proof (sort_topk_streaming (int_less asc op) (fun _ => True) (int_less_swo asc op) limit batches HT) as ES.
+  split; [exact ES|].
+  apply (StronglySorted_weaken (fun a b => int_less asc op b a = false) _ (fun k => f64_exact (ival k) = true)).
+  - intros a b Pa Pb H. eapply int_less_false_ordered; eauto.
+  - rewrite ES. apply Forall_firstn'.
+    apply (Forall_sort (int_less asc op) (fun k => f64_exact (ival k) = true)).
+    apply Forall_concat. assumption.
+  - apply (process_sorted (int_less asc op) (fun _ => True) (int_less_swo asc op)). assumption.
+Qed.
+End INTKEYS.
+
+(* non-vacuity of the guard: small values of both dtypes, 2^53, MaxInt64's exact neighbour
+   2^63 - 1024, uint64 2^63 and 2^64 - 2048, MinInt64 *)
+Example f64_exact_example :
+  forallb (fun k => f64_exact (ival k))
+    [(false, 5%N, []); (true, 7%N, []); (false, 18446744073709551613%N, []); (true, 9007199254740992%N, []);
+     (false, 9223372036854774784%N, []); (true, 9223372036854775808%N, []);
+     (true, 18446744073709549568%N, []); (false, 9223372036854775808%N, [])] = true.
+Proof. vm_compute. reflexivity. Qed.
